@@ -5,8 +5,9 @@
    samplers and BatchSampler are modelled primitives).  Rows are abstract (type
    R): what a row of a TensorFrame is, and that tensor_frame[index] selects the
    same rows of every column, is property C07. *)
+From Coq Require Import String.
 From Coq Require Import List Arith Permutation.
-From PF Require Import Lib.ListX Lib.Chunks Model.Loader Proofs.LoaderProofs.
+From PF Require Import Lib.ListX Lib.Chunks Model.Loader Proofs.LoaderProofs Model.LoaderCall Proofs.LoaderCallProofs.
 Import ListNotations.
 
 Section C10.
@@ -144,8 +145,38 @@ Section C10.
     run_loader convert df_len src {| kw_batch_size := bs; kw_sampling := s; kw_drop_last := d; kw_collate_fn := c1 |} =
     run_loader convert df_len src {| kw_batch_size := bs; kw_sampling := s; kw_drop_last := d; kw_collate_fn := c2 |}.
   Proof. reflexivity. Qed.
+  (* --- the same two clauses on the CALL-level model (Model/LoaderCall.v): Python positional
+     arguments and keyword dictionaries as written (kwargs.pop / kwargs.get / args rewrite /
+     explicit collate_fn=self.collate_fn plus **kwargs, duplicate keyword = TypeError).  In this
+     model a user collate_fn COULD take effect (call_epoch runs the function whose tag torch
+     received), so the statement is not true by construction. --- *)
+
+  (* whatever keyword dictionary the caller passes -- a collate_fn in particular -- and with up
+     to five positional arguments (batch_size, shuffle, sampler, batch_sampler, num_workers), a
+     successfully constructed loader collates with its own row selection (tag 0), and its epoch
+     is loader_epoch *)
+  Theorem c10_call_user_collate_ignored : forall src args kwargs order ld tag user,
+    length args <= 5 ->
+    loader_init_call convert df_len src args kwargs order = Some (ld, tag) ->
+    tag = 0 /\ call_epoch user ld tag = loader_epoch ld.
+  Proof.
+    intros src args kwargs order ld tag user Hl H.
+    assert (tag = 0) as -> by (eapply (call_collate_is_own convert df_len); eauto).
+    split; reflexivity.
+  Qed.
+
+  (* shuffle over an empty frame, requested positionally or by keyword: no error, zero batches *)
+  Theorem c10_call_empty_shuffle : forall bs order, 0 < bs ->
+    (exists ld, loader_init_call convert df_len (SrcFrame []) [PNat bs; PBool true] [] order = Some (ld, 0) /\
+                ld_sampling ld = Sequential /\ loader_epoch ld = Some []) /\
+    (exists ld, loader_init_call convert df_len (SrcFrame [])
+                  [] [("batch_size"%string, PNat bs); ("shuffle"%string, PBool true)] order = Some (ld, 0) /\
+                ld_sampling ld = Sequential /\ loader_epoch ld = Some []).
+  Proof. exact (call_empty_shuffle convert df_len). Qed.
 End C10.
 
+Print Assumptions c10_call_user_collate_ignored.
+Print Assumptions c10_call_empty_shuffle.
 Print Assumptions c10_batches_concat.
 Print Assumptions c10_batches_concat_drop_last.
 Print Assumptions c10_batch_sizes.
@@ -197,4 +228,15 @@ Example c10_ex_empty_and_error :
     {| kw_batch_size := 2; kw_sampling := Shuffled []; kw_drop_last := false; kw_collate_fn := None |} = Some [] /\
   run_loader (fun df : list nat => df) (@length nat) (SrcFrame [10; 11])
     {| kw_batch_size := 2; kw_sampling := Sampler [0; 1; 2]; kw_drop_last := false; kw_collate_fn := None |} = None.
+Proof. vm_compute. auto. Qed.
+
+(* call level: a user collate_fn passed by keyword next to a positional batch_size and shuffle is
+   dropped; WITHOUT the pop the explicit collate_fn=self.collate_fn would collide with it (TypeError) *)
+Example c10_ex_call_level :
+  c10_call_run (SrcFrame [10; 11; 12]) [PNat 2; PBool false]
+    [("collate_fn"%string, PCollate 7); ("drop_last"%string, PBool false)] [] = Some ([[10; 11]; [12]], 2) /\
+  py_call torch_params torch_kwonly [PNat 2]
+    [("collate_fn"%string, PCollate 0); ("collate_fn"%string, PCollate 7)] = None /\
+  (* torch alone rejects shuffle over an empty source; the loader's rewrite is what makes it work *)
+  torch_loader_init (@nil nat) 0 [("shuffle"%string, PBool true); ("collate_fn"%string, PCollate 0)] [] = None.
 Proof. vm_compute. auto. Qed.
